@@ -11,7 +11,10 @@ import (
 	"strconv"
 	"strings"
 
+	"github.com/ogen-go/ogen"
 	"github.com/ogen-go/ogen/gen/ir"
+	"github.com/ogen-go/ogen/openapi"
+	"github.com/ogen-go/ogen/openapi/parser"
 
 	"github.com/ogen-go/ogen/internal/naming"
 )
@@ -139,3 +142,40 @@ var _ ir.Kind
 //@   ensures types:   forall n string :: n != t.Name || err != nil ==> vHas(s.types, n) == old(vHas(s.types, n)) && s.types[n] == old(s.types[n])
 
 var _ jsonschema.Ref
+
+// ---------------------------------------------------------------------------
+// NewGenerator (C20): every failure that is attributable to the spec - parsing, IR building and ROUTING
+// conflicts - is detected by NewGenerator, i.e. before cmd/ogen prepares or cleans the target directory
+// (generate() in cmd/ogen calls NewGenerator first; proved there). The stages are opaque here (trusted,
+// one ghost event each on the log "stage"); the contract pins down WHICH stages a successful
+// NewGenerator has run, in order: the IR was built and the routes were built.
+// ---------------------------------------------------------------------------
+
+//@ func (g *Generator) makeIR(api *openapi.API) (err error)
+//@   trusted opaque stage (IR building); one ghost event
+//@   effect stage "ir"
+//@ func (g *Generator) route() (err error)
+//@   trusted opaque stage (route building: refuses conflicting templates); one ghost event
+//@   effect stage "route"
+//@ func expandSpec(api *openapi.API, p string) (err error)
+//@   trusted opaque stage (writes the expanded spec when the option asks for it)
+//@   effect stage "expand"
+//@ func newTStorage() (s *tstorage)
+//@   trusted constructor
+//@   ensures nonnil: s != nil
+//@ func (o *Options) setDefaults()
+//@   trusted fills defaults of the parser options and of the logger, nothing else
+//@   modifies o.Parser, o.Logger
+//@ extern func jsonschema.NewExternalResolver(opts jsonschema.ExternalOptions) (r jsonschema.ExternalResolver)
+//@   pure
+//@ extern func parser.Parse(spec *ogen.Spec, s parser.Settings) (api *openapi.API, err error)
+//@   pure
+
+//@ func NewGenerator(spec *ogen.Spec, opts Options) (g *Generator, err error)
+//@   modifies log:stage
+//@   ensures routed: err == nil ==> g != nil && opts.ExpandSpec == "" ==> vSeqEq(vLogStr("stage"), vCat(old(vLogStr("stage")), []string{"ir", "route"}))
+//@   ensures failed: err != nil ==> g == nil
+
+var _ *ogen.Spec
+var _ *openapi.API
+var _ parser.Settings
